@@ -176,6 +176,12 @@ func matrixShape(name string) *pipeline.Matrix {
 		return &pipeline.Matrix{Setup: pipeline.MatrixSetup{"": {"a", "c"}}}
 	case "setup_os":
 		return &pipeline.Matrix{Setup: pipeline.MatrixSetup{"os": {"linux"}}}
+	case "setup_os_eadj":
+		return &pipeline.Matrix{Setup: pipeline.MatrixSetup{"os": {"linux"}}, Adjustments: pipeline.MatrixAdjustments{}} // (what `adjustments: []` parses to)
+	case "setup_os_erem":
+		return &pipeline.Matrix{Setup: pipeline.MatrixSetup{"os": {"linux"}}, RemainingFields: map[string]any{}}
+	case "adj_base_erem":
+		return adj("z", nil, map[string]any{})
 	case "setup_os2":
 		return &pipeline.Matrix{Setup: pipeline.MatrixSetup{"os": {"mac"}}}
 	case "shadow_a", "shadow_b":
@@ -197,6 +203,12 @@ func matrixShape(name string) *pipeline.Matrix {
 	case "anon_adj_a", "anon_adj_b":
 		return &pipeline.Matrix{Setup: pipeline.MatrixSetup{"": {"a"}, "os": {"linux"}},
 			Adjustments: pipeline.MatrixAdjustments{{With: pipeline.MatrixAdjustmentWith{"": "c", "os": map[string]string{"anon_adj_a": "mac", "anon_adj_b": "bsd"}[name]}}}}
+	case "dims_empty":
+		return &pipeline.Matrix{Setup: pipeline.MatrixSetup{"os": {}, "arch": {}}} // dimensions without values: still a matrix, and signed
+	case "dims_empty2":
+		return &pipeline.Matrix{Setup: pipeline.MatrixSetup{"os": {}, "cpu": {}}}
+	case "dims_mixed_a", "dims_mixed_b":
+		return &pipeline.Matrix{Setup: pipeline.MatrixSetup{"os": {}, "arch": {"amd64", map[string]string{"dims_mixed_a": "arm64", "dims_mixed_b": "riscv"}[name]}}}
 	case "list_linux":
 		return &pipeline.Matrix{Setup: pipeline.MatrixSetup{"": {"linux"}}}
 	case "dim_arch":
@@ -698,6 +710,12 @@ func c06Build(nodes []any, path string, rng *mrand.Rand) pipeline.Steps {
 				cs.Env = map[string]string{}
 				for _, k := range names {
 					cs.Env[k] = []string{"step-" + k, "", "step-" + k}[rng.Intn(3)] // an empty value still shadows
+				}
+				if rng.Intn(2) == 0 {
+					// step-only variables that sort before, between and after the pipeline's names (which are A, B): they shadow nothing
+					for _, k := range []string{"0_FIRST", "1_SECOND", "AA", "AB", "Z_LAST"} {
+						cs.Env[k] = "only-" + k
+					}
 				}
 			}
 			switch rng.Intn(6) {
